@@ -471,9 +471,15 @@ void RealVisitor::bvisit(const Constant &x)
 
 void RealVisitor::bvisit(const Add &x)
 {
+    // real + real = real, real + non-real = non-real,
+    // non-real + non-real = indeterminate
     tribool b = tribool::tritrue;
     for (const auto &arg : x.get_args()) {
         arg->accept(*this);
+        if (is_false(b) and is_false(is_real_)) {
+            b = tribool::indeterminate;
+            break;
+        }
         b = andwk_tribool(b, is_real_);
         if (is_indeterminate(b)) {
             break;
